@@ -22,7 +22,8 @@ RULE = ('two kinds of case. (history) one seeded Sampler driven through slices, 
         'toggles at arbitrary batch boundaries (also before exploration ended and with an empty post-exploration '
         'view); at every batch boundary a snapshot monitor checks: explored never goes back, after exploration the '
         'bound list and every bound\'s geometry digest are frozen, no shell is empty, every earlier per-shell '
-        'snapshot is a prefix of the later arrays; view ON = exactly the rows from shell_end_exp on; whenever the '
+        'snapshot is a prefix of the later arrays; view ON = exactly the rows stored after exploration ended (recorded by the '
+        'monitor itself), each of which must have been passed to the likelihood after exploration ended; whenever the '
         'same (flag, stored state) recurs all statistics and posterior() are bit-identical. (paths) three samplers '
         'with one seed request the discard in run(), by the setter after exploration, and by the setter after a '
         'resume from the end-of-exploration checkpoint; statistics at the same stored state and final results must '
@@ -96,9 +97,10 @@ class SnapshotMonitor:
         self.viol = []
         self.obs = dict(snapshots=0, prefix_checks=0, geometry_checks=0, toggles=0, toggles_after_exploration=0,
                         toggles_before_exploration=0, view_recurrences_compared=0, sampling_batches_between_toggles=0,
-                        resumes_after_exploration=0, empty_discarded_views=0, bounds_frozen_max=0)
+                        resumes_after_exploration=0, empty_discarded_views=0, discard_rows_traced_to_evaluation=0, bounds_frozen_max=0)
         self.driver = None
         self.was_explored = False
+        self.post_rows = set()       # unit points passed to the likelihood after exploration had ended
         self.end_lens = None
         self.frozen = None           # list of bound digests at the end of exploration
         self.prefix = None           # per shell: (n, digest points[:n], digest log_l[:n], digest blobs[:n])
@@ -170,6 +172,16 @@ class SnapshotMonitor:
             if not np.array_equal(np.asarray(s.shell_n), want):
                 self.bad('view.discard-not-post-exploration-rows', 'with discard on, shell_n = %r but rows after '
                          'shell_end_exp = %r' % (np.asarray(s.shell_n).tolist(), want.tolist()), s, where)
+            if self.end_lens is not None and len(self.end_lens) == len(s.points):
+                for i in range(len(s.points)):
+                    rows = np.asarray(s.points[i][int(self.end_lens[i]):], dtype=float)
+                    self.obs['discard_rows_traced_to_evaluation'] += len(rows)
+                    old_rows = [r for r in rows if r.tobytes() not in self.post_rows]
+                    if old_rows:
+                        self.bad('view.discard-shows-exploration-sample', 'the discarded view of shell %d contains %d '
+                                 'samples whose likelihood was evaluated before exploration ended' % (i, len(old_rows)),
+                                 s, where)
+                        break
             if np.sum(want) == 0:
                 self.obs['empty_discarded_views'] += 1
             else:
@@ -192,6 +204,10 @@ class SnapshotMonitor:
                          'statistics/posterior than before the toggles' % flag, s, where)
         else:
             self.seen[key] = st
+
+    def on_before_eval(self, s, points):
+        if s.explored:
+            self.post_rows.update(r.tobytes() for r in np.asarray(points, dtype=float))
 
     def on_before_add_samples(self, s, shell):
         if s.explored and not self.was_explored:      # first sampling-phase batch is about to be drawn
